@@ -75,6 +75,7 @@ class FaultRunner {
   std::string dir, img;
   std::vector<WriteRec> writes;
   bool fault_seen = false;   // at least one injected failure so far
+  bool surfaced = false;     // some API call returned an error status after the injected failure
   uint64_t eligible_total = 0;
 
   void sched_cfg(const Op &op) {
@@ -122,6 +123,7 @@ class FaultRunner {
     } else {
       if (!fired()) VF_FAIL("C12", "get(%s) returns error %d before any failure was injected", lit_token(k).substr(0, 40).c_str(), rc);
       rep->count("reads_returning_error_after_fault");
+      surfaced = true;
     }
   }
 
@@ -170,7 +172,7 @@ class FaultRunner {
         if (it == r.user.end() || it->second != p.second)
           VF_FAIL("C12", "%s: key %s does not hold the newest value among the surviving batches; injected failure: %s", what.c_str(), lit_token(p.first).substr(0, 40).c_str(), io_counters_desc.c_str());
       }
-      for (auto &p : r.user) if (!want.count(p.first)) VF_FAIL("C12", "%s: key %s present but deleted or never written", what.c_str(), lit_token(p.first).substr(0, 40).c_str());
+      for (auto &p : r.user) if (!want.count(p.first) && p.first != "zz-probe-after-fault" && p.first != "zz-after-fault") VF_FAIL("C12", "%s: key %s present but deleted or never written", what.c_str(), lit_token(p.first).substr(0, 40).c_str());
       // the database must be writable again
       std::string k = "zz-after-fault", v = "ok";
       ldb_slice_t ks = slice_of(k), vs = slice_of(v);
@@ -192,6 +194,8 @@ class FaultRunner {
   void run_once(const Case &c, const FaultPlan &plan) {
     writes.clear();
     cand.clear();
+    surfaced = false;
+    probed = false;
     for (auto &op : c.ops)
       if (op.name == "config") { cfg = DbConfig(); cfg.apply(op); sched_cfg(op); break; }
     static int seq = 0;
@@ -212,13 +216,22 @@ class FaultRunner {
     if (rc != LDB_OK) {
       db = nullptr;
       if (!fired()) VF_FAIL("C12", "ldb_open fails rc=%d before any failure was injected", rc);
+      surfaced = true;
       rep->count("open_failed_under_fault");
     }
     for (int i = 0; i < (int)c.ops.size(); i++) {
       const Op &op = c.ops[i];
       const std::string &n = op.name;
+      if (getenv("VF_TRACE")) fprintf(stderr, "op %d %s fired=%d surfaced=%d\n", i, op.str().substr(0, 60).c_str(), (int)fired(), (int)surfaced);
       if (n == "reopen") {
-        if (db) { sched_call_begin(); ldb_close(db); sched_call_end(); db = nullptr; }
+        surfacing_probe(db, plan);
+        {
+          bool before = fired();
+          if (db) { sched_call_begin(); ldb_close(db); sched_call_end(); db = nullptr; }
+          sched_quiesce();
+          // a failure that hits the background compaction which ldb_close is waiting for has no call left to report to
+          if (!before && fired()) { surfaced = true; rep->count("fault_fired_inside_close"); }
+        }
         sched_quiesce();
         std::string keep = cfg.cmp;
         cfg.apply(op);
@@ -230,6 +243,7 @@ class FaultRunner {
         if (rc != LDB_OK) {
           db = nullptr;
           if (!fired()) VF_FAIL("C12", "reopen fails rc=%d before any failure was injected", rc);
+          surfaced = true;
           rep->count("open_failed_under_fault");
         }
         continue;
@@ -280,6 +294,7 @@ class FaultRunner {
           ldb_batch_destroy(b);
           uint64_t inj_after = io_counters().injected;
           if (w.rc != LDB_OK && !fired()) VF_FAIL("C12", "write returns rc=%d before any failure was injected", w.rc);
+          if (w.rc != LDB_OK) surfaced = true;
           // a failure injected into a log-file write or sync while this call was in progress must surface in its status
           if (w.rc == LDB_OK && inj_after > inj_before && scfg.strategy != ST_RANDOM && last_fault_on_log_write())
             VF_FAIL("C12", "write %d returned OK although a %s failed during the call", w.idx, io_counters().fired_desc.c_str());
@@ -294,6 +309,7 @@ class FaultRunner {
         int r2 = ldb_test_compact_memtable(db);
         sched_call_end();
         if (r2 != LDB_OK && !fired()) VF_FAIL("C12", "flush fails rc=%d before any failure was injected", r2);
+        if (r2 != LDB_OK) surfaced = true;
       } else if (n == "crange") {
         int level = op.args.size() > 0 ? atoi(op.args[0].c_str()) : 0;
         if (level < 0 || level > 5) continue;
@@ -308,6 +324,7 @@ class FaultRunner {
     }
     // a sample of reads at the end, still under the fault
     if (db) { int cnt = 0; for (auto &p : cand) { check_read(db, p.first); if (++cnt > 30) break; } }
+    surfacing_probe(db, plan);
     eligible_total = io_counters().eligible;
     io_counters_desc = fired() ? sfmt("%s (eligible call #%lld, errno %d%s)", io_counters().fired_desc.c_str(), (long long)io_counters().fired_at, plan.err,
                                       plan.persistent ? ", persistent" : plan.short_write ? ", short write" : ", one-shot")
@@ -337,6 +354,43 @@ class FaultRunner {
   }
   std::string io_counters_site;
 
+  // "the failure surfaces as an error status on the affected or later calls": a one-shot failure of a write or sync on a
+  // log, MANIFEST, table or CURRENT temp file changes what is durable, so it must not pass unnoticed on the handle that
+  // suffered it; if no call has reported an error yet, one more sync write or a flush must (the background error is
+  // sticky).  Called before the handle is closed; a new handle starts clean.
+  void surfacing_probe(ldb_t *db, const FaultPlan &plan) {
+    if (!(db && !surfaced && !probed && !plan.persistent)) return;
+    // let a background compaction that may be carrying the failure finish: it records its error when it ends
+    sched_quiesce();
+    if (!(fired() && must_surface())) return;
+    probed = true;
+    std::string k = "zz-probe-after-fault", v = "x";
+    ldb_slice_t ks = slice_of(k), vs = slice_of(v);
+    ldb_writeopt_t wo = *ldb_writeopt_default;
+    wo.sync = 1;
+    sched_call_begin();
+    int prc = ldb_put(db, &ks, &vs, &wo);
+    sched_call_end();
+    if (prc == LDB_OK) {
+      sched_call_begin();
+      int frc = ldb_test_compact_memtable(db);
+      sched_call_end();
+      if (frc == LDB_OK)
+        VF_FAIL("C12", "the injected failure (%s, errno %d, one-shot) was never reported: every call on that handle, a later sync write and a flush all returned OK", io_counters().fired_desc.c_str(), plan.err);
+    }
+    surfaced = true;
+    rep->count("surfacing_probes");
+  }
+  bool probed = false;
+
+  bool must_surface() {
+    const std::string &d = io_counters().fired_desc;
+    bool wr = d.compare(0, 5, "write") == 0 || d.compare(0, 5, "fsync") == 0 || d.compare(0, 9, "fdatasync") == 0;
+    if (!wr) return false;
+    std::string f = d.substr(d.find(' ') + 1);
+    const char *cls = io_file_class(f);
+    return !strcmp(cls, "log") || !strcmp(cls, "manifest") || !strcmp(cls, "table") || !strcmp(cls, "temp");
+  }
   bool last_fault_on_log_write() {
     const std::string &d = io_counters().fired_desc;
     bool is_log = d.size() > 4 && d.compare(d.size() - 4, 4, ".log") == 0;
